@@ -87,7 +87,7 @@ func genC04(t *rapid.T) c04Case {
 	c.Prelude = rapid.Bool().Draw(t, "prelude")
 	if rapid.IntRange(0, 2).Draw(t, "points") == 0 {
 		// (including the consumer held inside Unmarshal while it still borrows the stream's read buffer)
-		c.Cfg.Points = rapid.SliceOfNDistinct(rapid.SampledFrom(append([]string{"harness.Unmarshal.holding", "harness.Unmarshal.holding", "manager.manageReader.beforeDispatch"}, streamPoints...)), 1, 4, func(s string) string { return s }).Draw(t, "pts")
+		c.Cfg.Points = rapid.SliceOfNDistinct(rapid.SampledFrom(append([]string{"harness.Unmarshal.holding", "harness.Unmarshal.holding", "manager.manageReader.beforeDispatch", "manager.manageStream.enter", "manager.manageStream.enter"}, streamPoints...)), 1, 4, func(s string) string { return s }).Draw(t, "pts")
 		c.Cfg.PointLimit = 6
 	}
 	c.Choices = rapid.SliceOfN(rapid.SampledFrom(c04Kinds), 0, 40).Draw(t, "choices")
@@ -135,6 +135,9 @@ func runC04(c c04Case) (r pbt.Result) {
 	soft := c.Cfg.Soft
 	if c.Prelude {
 		w.StartClient(2)
+		// the goroutine watching the prelude call's context may be late: the call is over and its
+		// context cancelled before that goroutine looks at either
+		w.Flush(sim.Filter{Coarse: true, Hold: func(p string) bool { return p == "manager.manageStream.enter" }})
 		w.Flush(sim.Filter{Coarse: true})
 		if !w.Done("c2") {
 			fail("harness: prelude call did not complete")
